@@ -350,6 +350,29 @@ pub fn c10_case(fam: &str, idx: usize, seed: u64) -> Option<Case> {
             cs.info.hyp = black == 0;
             Some(cs)
         }
+        "replay" => {
+            // the cancel handshake completes; later the link re-delivers the whole first pass (metadata, data,
+            // EOF) of the cancelled transaction, as a long-delayed duplicate would
+            let mut rng = Rng::derive(seed, 1002, idx as u64);
+            let mode = idx % 3;
+            let who = (idx / 3) % 2;
+            let mut k = Knobs::base();
+            k.seg = 32;
+            k.mode = if modes[mode].0 { ack() } else { unack() };
+            k.closure = modes[mode].1;
+            let size = 100usize;
+            let c = content(&mut rng, size, idx as u64 % 5, 32, 0xC10);
+            let mut sc = two_party(&case, seed ^ idx as u64, &k, c);
+            let n0 = first_pass_len(size, 32);
+            let at = rng.usize(n0 - 1);
+            sc.scripts.push(Script { trig: if who == 0 { Trigger::AfterEmit(0, at) } else { Trigger::AfterArrive(1, at) }, delay_ms: 0, act: Act::Prim(who, PrimKind::Cancel, 0) });
+            let when = *rng.pick(&[200u64, 2500, 20_000, 60_000]);
+            for i in 0..n0 {
+                sc.scripts.push(Script { trig: Trigger::At(when), delay_ms: i as u64, act: Act::Redeliver(0, i) });
+            }
+            let desc = format!("{} size={} cancel at e{} after index {} and, {} ms later, re-delivery of the sender's whole first pass", k.describe(), size, who, at, when);
+            Some(Case::from(sc, &k, desc, true))
+        }
         _ => None,
     }
 }
@@ -385,14 +408,19 @@ pub fn judge_c10(info: &Info, log: &RunLog, rep: &mut Report) {
     let cancel_ind = d.finished(t.dst, id).into_iter().find(|x| x.2.report.condition == Condition::CancelReceived && !is_success(x.2)).map(|x| (x.0, x.1));
     if let Some((ci, ct)) = cancel_ind {
         rep.count("c10_checked:nothing-delivered-after-cancel-report");
+        // was the delivery made by the cancelled transaction itself, or by a transaction that the daemon
+        // re-created for the same id from PDUs that arrived after the cancelled one had ended?
+        let respawned = |tu: u64| d.spans(id, TaskKind::Recv).iter().any(|sp| sp.start_us > ct && sp.start_us <= tu);
         if let Some(s) = d.finished(t.dst, id).into_iter().find(|x| x.0 > ci && is_success(x.2)) {
-            rep.violate("delivery-reported-after-cancel", format!("cfg={} cancel-at={}", info.knobs[0].shape(), if who == t.src { "sender" } else { "receiver" }), &info.case, w(&format!("the receiver reported the transaction cancelled at {:.3}s and a successful delivery at {:.3}s", ct as f64 / 1e6, s.1 as f64 / 1e6)));
+            let key = if respawned(s.1) { "by=re-created-transaction".to_string() } else { format!("by=cancelled-transaction cfg={} cancel-at={}", info.knobs[0].shape().split('/').next().unwrap_or(""), if who == t.src { "sender" } else { "receiver" }) };
+            rep.violate("delivery-reported-after-cancel", key, &info.case, w(&format!("the receiver reported the transaction cancelled at {:.3}s and a successful delivery at {:.3}s", ct as f64 / 1e6, s.1 as f64 / 1e6)));
         }
         let obs = d.dests(0);
         let before = obs.iter().filter(|x| x.0 <= ci || x.1 <= ct).last().map(|x| x.2.clone());
         if let Some(bf) = before {
             if let Some(ch) = obs.iter().find(|x| x.1 > ct && *x.2 != bf) {
-                rep.violate("file-appears-after-cancel", format!("cfg={} cancel-at={} complete={}", info.knobs[0].shape(), if who == t.src { "sender" } else { "receiver" }, ch.2.as_deref() == Some(t.content.as_slice())), &info.case, w(&format!("the destination name changed at {:.3}s, after the receiver had reported the transaction cancelled at {:.3}s", ch.1 as f64 / 1e6, ct as f64 / 1e6)));
+                let key = if respawned(ch.1) { "by=re-created-transaction".to_string() } else { format!("by=cancelled-transaction cfg={} cancel-at={} complete={}", info.knobs[0].shape().split('/').next().unwrap_or(""), if who == t.src { "sender" } else { "receiver" }, ch.2.as_deref() == Some(t.content.as_slice())) };
+                rep.violate("file-appears-after-cancel", key, &info.case, w(&format!("the destination name changed at {:.3}s, after the receiver had reported the transaction cancelled at {:.3}s", ch.1 as f64 / 1e6, ct as f64 / 1e6)));
             }
         }
     }
@@ -499,7 +527,7 @@ pub fn run_c10(tier: &str, seed: u64, replay: Option<&str>) -> (Meta, Report) {
     let meta = Meta {
         property: "C10",
         level: "fault_enumeration",
-        rule: "sys = Cancel issued at the sender or at the receiver after EVERY emission of the sender, EVERY arrival at the receiver and each of the first three arrivals at the sender, for a 4-segment and an empty file x {ack (deferred/immediate NAK), unack, unack+closure} x {no loss, loss of the 1st EOF, 2nd EOF, 1st/2nd ACK(EOF), 1st Finished, 1st ACK(Finished), 2nd or 4th file-data PDU} plus peer never heard again after the cancel (complete; quick tier takes every 3rd case by seed); rand = random sizes/indices/delays with extra dup/delay faults. distinct_nontrivial = distinct (config, size, event-order) signatures among runs in which the cancel reached a live transaction.".into(),
+        rule: "sys = Cancel issued at the sender or at the receiver after EVERY emission of the sender, EVERY arrival at the receiver and each of the first three arrivals at the sender, for a 4-segment and an empty file x {ack (deferred/immediate NAK), unack, unack+closure} x {no loss, loss of the 1st EOF, 2nd EOF, 1st/2nd ACK(EOF), 1st Finished, 1st ACK(Finished), 2nd or 4th file-data PDU} plus peer never heard again after the cancel (complete; quick tier takes every 3rd case by seed); rand = random sizes/indices/delays with extra dup/delay faults; replay = the cancel handshake completes and 0.2-60 s later the sender's whole first pass is delivered again (long-delayed duplicates). distinct_nontrivial = distinct (config, size, event-order) signatures among runs in which the cancel reached a live transaction.".into(),
         exhaustive: thorough,
         assumptions: vec!["a cancel may lose the race against completion: the cancel-condition rule is applied only when the receiver never reported a successful delivery".into(), "in unacknowledged mode without closure a receiver-side cancel cannot be signalled to the sender; only termination and the file rule are judged there".into()],
         require: vec![("c10_cancels:sender".into(), 150), ("c10_cancels:receiver".into(), 150), ("c10_checked:peer-reports-cancel".into(), 40), ("c10_checked:nothing-delivered-after-cancel-report".into(), 100)],
@@ -518,6 +546,9 @@ pub fn run_c10(tier: &str, seed: u64, replay: Option<&str>) -> (Meta, Report) {
     let nr = if thorough { 60_000 } else { 3_000 };
     rep.merge(run_cases(nr, "c10-rand", move |i| c10_case("rand", i, seed), judge_c10));
     rep.add("cases:rand", nr as u64);
+    let np = if thorough { 3_000 } else { 300 };
+    rep.merge(run_cases(np, "c10-replay", move |i| c10_case("replay", i, seed), judge_c10));
+    rep.add("cases:replay", np as u64);
     (meta, rep)
 }
 
